@@ -350,6 +350,15 @@ def run(chk):
             nch += 1
             chk.ob("C04-D9.chain", o["function"], o["construct"], o["ok"], o["where"], o["detail"], o["expected"])
     chk.floor("C04-D9.chain", nch, 2, "chain-rule scaling sites shared with C10")
+    from rules import restart
+    nrs = restart.restart_rule(chk, db, "C04-D11.restart")
+    chk.floor("C04-D11.restart", nrs, 6, "restart-loop obligations of the wavelet solver (instantiations)")
+    # evaluate(x) == interpolation weights times values needs the coefficients of the Kronecker algorithm to be computed with the basis that evaluate uses
+    from rules import vander
+    chk.rule("C04-D12.vandermonde", "the 1-D matrices of the Kronecker coefficient algorithm (van_matrix) hold values of the same basis functions that evaluate()/evaluateHierarchicalFunctions() use: "
+                                    "every entry is evalRaw<rule>(max_order, column, node of the row) or the literal one where that function is one (obligations of C01-D5)")
+    nv4 = vander.van_rule(chk, db, "C04-D12.vandermonde")
+    chk.floor("C04-D12.vandermonde", nv4, 30, "paired appends in van_matrix")
     # integrate(), sum of quadrature weights times values, and coefficients times integrateHierarchicalFunctions() are documented to agree
     from rules import routing
     nrt = routing.routing_rule(chk, db, "C04-D10.integrals", only=("integral",))
